@@ -283,7 +283,15 @@ func c10Census(c *core.Ctx) (sources []unorderedSource, unorderedFns map[*ssa.Fu
 		} else if cal := core.Callee(com); cal != nil {
 			name = cal.Name()
 		}
-		if f := unorderedImpl(com); f != nil && passName[f] != "" {
+		// a contract method keeps its own name however its implementation gets at the sequence; a helper or an
+		// internal strategy that only hands another sequence on is known by that sequence's name
+		contract := false
+		if com.IsInvoke() && com.Method != nil && com.Method.Exported() {
+			if n := core.NamedOf(com.Value.Type()); n != nil && n.Obj().Exported() {
+				contract = true
+			}
+		}
+		if f := unorderedImpl(com); f != nil && passName[f] != "" && !contract {
 			name = passName[f]
 		}
 		return name
